@@ -5,7 +5,7 @@
    (below) and otherwise judged on every run by the extracted reader on the implementation's output. *)
 From Coq Require Import String List ZArith NArith Bool.
 Import ListNotations.
-From Selfies Require Import Base Generated Lex Atoms Decoder StateFacts Reader DecoderBasics DecoderInv DecoderSum.
+From Selfies Require Import Base Generated Lex Atoms Decoder StateFacts Reader DecoderBasics DecoderInv DecoderSum TokFacts.
 Local Open Scope string_scope.
 Local Open Scope Z_scope.
 
@@ -67,6 +67,15 @@ Theorem C01_graph_valence_partial : forall T s attribute m,
     a_aromatic a = false /\ bonding_capacity T a = Ok c /\ 0 <= valence m i <= c.
 Proof. intros T s attribute m Hq Hd E. exact (graph_valence T m (decode_graph_ok T s attribute m Hq Hd E)). Qed.
 
+
+(* the same for every string whose symbols int() can read (at most int_max_str_digits characters each) *)
+Theorem C01_graph_valence_short_symbols : forall T s attribute m,
+  (exists c, assoc (lit "?") T = Some c) -> symbols_short s ->
+  decode_graph T s false attribute = Ok m ->
+  forall i a c at_, nth_error (atoms m) i = Some (a, c, at_) ->
+    a_aromatic a = false /\ bonding_capacity T a = Ok c /\ 0 <= valence m i <= c.
+Proof. intros T s attribute m Hq Hs. apply C01_graph_valence_partial; [exact Hq|now apply digits_ok_of_symbols]. Qed.
+
 (* ... and the graph is well formed: every bond leads to an existing atom, has order 1, 2 or 3, tree bonds
    point forward, ring bonds are stored at both ends with the same order, no atom has two bonds to the
    same neighbour, roots exist *)
@@ -117,4 +126,5 @@ Print Assumptions C01_ring_rule_partial.
 Print Assumptions C01_ninety_nine_rings.
 Print Assumptions C01_graph_valence_partial.
 Print Assumptions C01_graph_shape_partial.
+Print Assumptions C01_graph_valence_short_symbols.
 Print Assumptions C01_output_is_written_graph.
